@@ -108,6 +108,9 @@ func runC16(c *Ctx) error {
 	if os.Getenv("C16_CHILD") != "" {
 		return c16Child(c)
 	}
+	if os.Getenv("C16_SPAN_ONLY") != "" { // debugging: only the span cases (same cases as in a full run)
+		return c16SpanCases(c)
+	}
 	ncirc := c.N(3, 10)
 	exe, err := os.Executable()
 	if err != nil {
@@ -214,7 +217,8 @@ func runC16(c *Ctx) error {
 			}
 		}
 	}
-	return nil
+	// span cases (c16span.go): R is not a linear function of the evaluator's view
+	return c16SpanCases(c)
 }
 
 type c16Rec struct {
